@@ -100,8 +100,25 @@ def test_components():
     return k
 
 
+def test_compare():
+    """the comparator itself: inf is never 'close' to a finite value, NaN equals NaN, tolerance is honoured"""
+    from . import compare
+    inf, nan = float("inf"), float("nan")
+    must_differ = [(np.array([1.0, inf]), np.array([1.0, 2.0])), (inf, 2.0), (np.array([nan]), np.array([1.0])), (1.0, 1.0 + 1e-6),
+                   ((np.array([1.0]), 2), (np.array([1.0]), 3)), (np.array([1, 2]), np.array([1, 2, 3])), (-inf, inf)]
+    must_equal = [(np.array([1.0, inf, nan]), np.array([1.0, inf, nan])), (1.0, 1.0 + 1e-12), (np.float64(inf), inf),
+                  ((np.array([0.5]), [1, 2]), (np.array([0.5]), [1, 2])), (np.array(3.0), 3.0)]
+    for a, b in must_differ:
+        if compare.deep_equal(a, b, 1e-9, 1e-10) is None:
+            _fail("compare.deep_equal accepted %r vs %r" % (a, b))
+    for a, b in must_equal:
+        if compare.deep_equal(a, b, 1e-9, 1e-10) is not None:
+            _fail("compare.deep_equal rejected %r vs %r" % (a, b))
+    return len(must_differ) + len(must_equal)
+
+
 def main():
-    tests = [test_shortest_paths, test_components]
+    tests = [test_shortest_paths, test_components, test_compare]
     try:
         from . import selftest_more
         tests += selftest_more.TESTS
